@@ -20,6 +20,7 @@ var rules = map[string]ruleFn{
 	"C02": ruleC02,
 	"C03": ruleC03,
 	"C04": ruleC04,
+	"C09": ruleC09,
 	"C10": ruleC10,
 	"C05": ruleC05,
 	"C06": ruleC06,
@@ -101,6 +102,7 @@ func runChecks(repo, prop, tier, out, explain string, verbose bool) (code int) {
 		}
 		p = nil
 		pureCache = map[any]bool{}
+		treePureCache = map[any]bool{}
 		runtime.GC()
 	}
 	loadWall := time.Since(t0)
